@@ -65,6 +65,25 @@ eq, lt, gt, lte }` (src/uint/{add,sub,neg,cmp}.rs; namespace CB.Gen.Chains.Uint)
       in the order of their declaration in the function (not of their use: reordering the statements of the body keeps
       the signature).  An untyped state variable (`let mut carry = 1;`) gets the one integer width that type-checks the
       body (tried: 8, 32, 64, 128; none or several -> unsupported).
+
+Fourth unit group (written to lean/CB/Gen/Encoding.lean, imports CB.Gen.Prim): the word-level helpers of the encoders /
+decoders — the constant-time hex decoder `decode_nibble`, `decode_hex_byte` of src/uint/encoding.rs (namespace
+CB.Gen.Encoding).  Subset extensions used there:
+  `u16`; the SIGNED integer types i8 i16 i32 i64 i128: the same `BitVec w` (two's complement pattern), but `>>` is the
+  arithmetic shift `BitVec.sshiftRight`, `<` `>` `<=` `>=` are the signed comparisons (`BitVec.slt` / `BitVec.sle`), `as` FROM a
+  signed type to a wider type sign-extends (`BitVec.signExtend`; to a narrower or equally wide type it keeps the low bits,
+  and `as` from an unsigned type zero-extends whatever the target), `+ - * & | ^ <<` and unary `-` are the operations
+  on the pattern (release semantics: wrapping); literals with a signed suffix (`0x2fi16`) and `let x: i16 = -1;`;
+  a fixed array of words `[u8; 2]` (parameter type) is the tuple of its elements, `bytes[K]` with a literal K its component.
+Second unit of that file: the primitive conversions `impl<const LIMBS: usize> Uint<LIMBS> { from_u8, from_u16, from_u32,
+from_u64, from_word, from_wide_word }` of src/uint/from.rs (namespace CB.Gen.Encoding.Uint; the 64-bit configuration).
+Subset extensions used there:
+  `assert!(cond, "message");` at the START of a body (before any other statement): the function `f` is translated as if
+  the assertions held, and their conjunction becomes a second definition `f_asserts : <same parameters> → Bool` (emitted
+  with `f`, like the loop definitions) — "the call panics" is `f_asserts .. = false`; comparisons between limb counts
+  (`LIMBS >= 1`) are `decide`d on `Nat`; a function with assertions cannot be called from another translated function
+  (its panic would be lost), an `assert!` anywhere else is outside the subset;
+  `arr[i].0 = e` / `arr[i].0 op= e` (the word inside limb `i`): `arr[i] = Limb(e)` / `arr[i] = Limb(arr[i].0 op e)`.
 """
 import os, re, sys, json
 
@@ -102,6 +121,35 @@ def tokenize(s):
         else:
             out.append(('op', m.group(5)))
     return out
+
+
+class SInt(int):
+    """bit width of a SIGNED integer type (an `int`, so everything that handles widths handles it; only `>>`, the order
+    comparisons and `as` look at the signedness)"""
+
+
+WIDTH.update({'u16': 16})
+SIGNED = {'i8': SInt(8), 'i16': SInt(16), 'i32': SInt(32), 'i64': SInt(64), 'i128': SInt(128)}
+LIT_SUFFIX = set(SIGNED) | {'u16'}
+
+
+def merge_suffixes(toks):
+    """`0x2fi16` is tokenized as the number 0x2f followed by the identifier `i16` (the number pattern knows only the
+    unsigned suffixes): glue them (a number directly followed by a type name is nothing else in Rust)"""
+    out = []
+    for tok in toks:
+        if tok[0] == 'id' and tok[1] in LIT_SUFFIX and out and out[-1][0] == 'num' and out[-1][2] is None:
+            out[-1] = ('num', out[-1][1], tok[1])
+        else:
+            out.append(tok)
+    return out
+
+
+_tokenize_unsigned = tokenize
+
+
+def tokenize(s):
+    return merge_suffixes(_tokenize_unsigned(s))
 
 
 # ------------------------------------------------------------------ parser (expressions, statements -> AST tuples)
@@ -304,6 +352,16 @@ class P:
         self.eat('op', '[')
         idx = self.expr()
         self.eat('op', ']')
+        if self.at('.') and self.peek(1) == ('num', 0, None) and self.peek(2)[0] == 'op' and self.peek(2)[1] in ASSIGN_OPS:
+            # `arr[i].0 op= e`: the word inside limb `i`
+            self.eat(); self.eat()
+            op = self.eat()[1]
+            rhs = self.expr()
+            self.eat('op', ';')
+            if op != '=':
+                rhs = ('bin', op[:-1], ('field', ('index', ('var', name), idx), 0), rhs)
+            stmts.append(('assign_idx', name, idx, '=', ('call', ['Limb'], [rhs])))
+            return True
         if not (self.peek()[0] == 'op' and self.peek()[1] in ASSIGN_OPS):
             self.i = save
             return False
@@ -444,6 +502,8 @@ WRAP = {'Limb': 'wrap:1', 'NonZero<Limb>': 'wrap:2'}
 # units whose functions are generic over a limb count: lean namespace -> name of the const parameter (first, explicit
 # `Nat` argument of every definition of the unit)
 GENERIC_NS = {}
+# (namespace, function) of the functions translated with an `<fn>_asserts` companion (their `assert!`s)
+ASSERTING = set()
 
 
 def ty_of(t, self_ty):
@@ -458,6 +518,15 @@ def ty_of(t, self_ty):
         return 'choice' if (self_ty == 'ConstChoice' or t == 'ConstChoice') else None
     if t == 'bool':
         return 'bool'
+    if t in SIGNED:
+        return SIGNED[t]
+    m = re.match(r'\[\s*(\w+)\s*;\s*(\d+)\s*\]$', t)
+    if m:
+        # a fixed array of words `[u8; 2]`: the tuple of its elements
+        el = ty_of(m.group(1), self_ty)
+        if not isinstance(el, int) or int(m.group(2)) < 2:
+            raise Unsupported('array type ' + t)
+        return tuple(el for _ in range(int(m.group(2))))
     if t in WIDTH:
         return WIDTH[t]
     if t.replace(' ', '') in WRAP:
@@ -602,6 +671,8 @@ class Gen:
         if k == 'lit':
             if want == 'nat' and e[2] in (None, 'usize'):
                 return str(e[1]), 'nat'          # an index / limb count
+            if e[2] in SIGNED:
+                return f'{e[1]}#{SIGNED[e[2]]}', SIGNED[e[2]]
             w = WIDTH.get(e[2]) if e[2] else (want if isinstance(want, int) else None)
             if w is None:
                 raise Unsupported('untyped literal')
@@ -641,6 +712,12 @@ class Gen:
             raise Unsupported('field of ' + str(ty))
         if k == 'index':
             t, ty = self.ex(e[1], env)
+            if isinstance(ty, tuple):
+                # a fixed array of words: component K for a literal K
+                c = self.const(e[2])
+                if c is None or not 0 <= c < len(ty):
+                    raise Unsupported('index into a fixed array')
+                return f'{atom(t)}{proj(c, len(ty))}', ty[c]
             if ty != 'uint':
                 raise Unsupported('index into ' + str(ty))
             ix, tix = self.ex(e[2], env, 'nat')
@@ -707,6 +784,8 @@ class Gen:
                 return t, tgt
             if not isinstance(ty, int):
                 raise Unsupported('cast of ' + str(ty))
+            if isinstance(ty, SInt) and tgt > ty:
+                return f'({t}).signExtend {tgt}', tgt      # `as` from a signed type to a wider one
             return f'({t}).setWidth {tgt}', tgt
         if k == 'bin':
             op = e[1]
@@ -721,7 +800,13 @@ class Gen:
                     s, ts = self.ex(e[3], env)
                     if not isinstance(ts, int) or ty >= 2 ** ts:
                         raise Unsupported('shift amount type')
+                    if isinstance(ty, SInt) and op == '>>':
+                        return f'(BitVec.sshiftRight {atom(t)} ({s} % {ty}#{ts}).toNat)', ty
                     return f'({t} {lop} ({s} % {ty}#{ts}))', ty
+                if isinstance(ty, SInt) and op == '>>':
+                    if not 0 <= c < ty:
+                        raise Unsupported('shift amount')
+                    return f'(BitVec.sshiftRight {atom(t)} {c})', ty      # arithmetic shift of a signed value
                 return f'({t} {lop} {c})', ty
             if want == 'nat' and op == '+':
                 a, ta = self.ex(e[2], env, 'nat'); b, tb = self.ex(e[3], env, 'nat')
@@ -740,6 +825,9 @@ class Gen:
                 tb = 64
             if ta != tb:
                 raise Unsupported(f'operand types differ: {ta} {tb}')
+            if ta == 'nat' and op in ('==', '!=', '<', '>', '<=', '>='):
+                # a comparison between limb counts / indices (`assert!(LIMBS >= 1)`)
+                return f'(decide ({a} {dict([("==", "="), ("!=", "≠"), ("<", "<"), (">", ">"), ("<=", "≤"), (">=", "≥")])[op]} {b}))', 'bool'
             if ta == 'nat':
                 raise Unsupported('index arithmetic')
             if op in ('==', '!=', '<', '>', '<=', '>='):
@@ -748,6 +836,12 @@ class Gen:
                 lop = {'==': '==', '!=': '!=', '<': '<', '>': '>', '<=': '≤', '>=': '≥'}[op]
                 if op in ('==', '!='):
                     return f'({a} {lop} {b})', 'bool'
+                if isinstance(ta, SInt) or isinstance(tb, SInt):
+                    if not (isinstance(ta, SInt) and isinstance(tb, SInt)):
+                        raise Unsupported('comparison of a signed and an unsigned value')
+                    sop = {'<': f'BitVec.slt {atom(a)} {atom(b)}', '>': f'BitVec.slt {atom(b)} {atom(a)}',
+                           '<=': f'BitVec.sle {atom(a)} {atom(b)}', '>=': f'BitVec.sle {atom(b)} {atom(a)}'}[op]
+                    return f'({sop})', 'bool'
                 return f'(decide ({a} {lop} {b}))', 'bool'
             if op in ('&&', '||'):
                 return f'({a} {op} {b})', 'bool'
@@ -818,6 +912,8 @@ class Gen:
         ns, sig = self.lookup(name, where)
         if sig is None:
             raise Unsupported('call to untranslated ' + name)
+        if (ns, name) in ASSERTING:
+            raise Unsupported('call to a function with assert! (' + name + ')')
         ptys, rty = sig
         if len(ptys) != len(args):
             raise Unsupported('arity ' + name)
@@ -1132,6 +1228,7 @@ class Gen:
         body = re.sub(r'//[^\n]*', '', body)
         body = re.sub(r'#\[[^\]]*\]', '', body)
         body = strip_debug_asserts(body)
+        body = self.take_asserts(body, env)
         pr = P(tokenize(body))
         stmts, final = pr.block()
         if pr.peek()[0] != 'eof':
@@ -1146,6 +1243,53 @@ class Gen:
             raise Unsupported(f'return type {ty} vs {rty}')
         lines.append(t)
         return lines
+
+    def take_asserts(self, body, env):
+        """`assert!(cond, "message");` statements at the start of a body -> removed from the text; their conjunction
+        becomes the auxiliary definition `<fn>_asserts : <parameters> → Bool` (env = the parameters at this point).
+        An `assert!` anywhere else is left in place (and is outside the subset: the function is not translated)."""
+        conds = []
+        ASSERTING.discard((self.ns, self.fname))
+        while True:
+            m = re.match(r'\s*assert\s*!\s*\(', body)
+            if not m:
+                break
+            depth, j, comma, instr = 1, m.end(), None, False
+            while depth and j < len(body):
+                ch = body[j]
+                if instr:
+                    if ch == '\\':
+                        j += 1
+                    elif ch == '"':
+                        instr = False
+                elif ch == '"':
+                    instr = True
+                elif ch in '([{':
+                    depth += 1
+                elif ch in ')]}':
+                    depth -= 1
+                elif ch == ',' and depth == 1 and comma is None:
+                    comma = j
+                j += 1
+            if depth:
+                raise Unsupported('unbalanced assert!')
+            m2 = re.match(r'\s*;', body[j:])
+            if not m2:
+                raise Unsupported('assert! used as an expression')
+            pr = P(tokenize(body[m.end():(comma if comma is not None else j - 1)]))
+            ce = pr.expr()
+            if pr.peek()[0] != 'eof':
+                raise Unsupported('assert! condition')
+            t, ty = self.ex(ce, env)
+            if ty != 'bool':
+                raise Unsupported('assert! condition of type ' + str(ty))
+            conds.append(t)
+            body = body[j + m2.end():]
+        if conds:
+            binders = ''.join(f'({ln} : {lean_ty(t)}) ' for ln, t in env.values())
+            self.aux.append(f'@[gen_defs] def {self.fname}_asserts {binders}: Bool :=\n  ' + ' && '.join(conds))
+            ASSERTING.add((self.ns, self.fname))
+        return body
 
     def fresh(self, v, env):
         used = {x[0] for x in env.values()}
@@ -1271,9 +1415,19 @@ FILES = [
              desc='impl<const LIMBS: usize> Uint<LIMBS>: add / sub / neg / compare loops over the limbs',
              want=['adc', 'wrapping_add', 'sbb', 'wrapping_sub', 'carrying_neg', 'wrapping_neg', 'is_nonzero', 'eq', 'lt', 'gt', 'lte']),
     ]),
+    # the word-level helpers of the encoders / decoders
+    ('Encoding.lean', ['CB.Gen.Prim', None, 'set_option linter.unusedVariables false'], [
+        dict(key='hex', rel='src/uint/encoding.rs', ns='CB.Gen.Encoding', self_ty=None,
+             desc='the constant-time hex decoder: decode_nibble (signed 16-bit arithmetic), decode_hex_byte',
+             want=['decode_nibble', 'decode_hex_byte'], private=True),
+        dict(key='uint_from', rel=['src/uint/from.rs'], ns='CB.Gen.Encoding.Uint', self_ty='Uint', generic='LIMBS',
+             desc='impl<const LIMBS: usize> Uint<LIMBS>: the conversions from a primitive (64-bit configuration)',
+             want=['from_u8', 'from_u16', 'from_u32', 'from_u64', 'from_u128', 'from_word', 'from_wide_word']),
+    ]),
 ]
 
 AUX = re.compile(r'\w+_loop\d+$')
+AUX = re.compile(AUX.pattern + r'|\w+_asserts$')     # the `assert!`s of a function stay with it, like its loops
 
 
 def read_last(path):
